@@ -1,0 +1,26 @@
+//go:build verif
+
+package proxy
+
+import (
+	"time"
+
+	"reservoir/cache"
+)
+
+// Verification hook (build tag "verif" only) for the revalidation histories.
+
+// VerifAge makes the proxy see the clock d further on: every instant the cache keeps
+// (Expires, TimeWritten, LastAccess, via the cache's own hook) and the Last-Modified
+// validator saved with each stored response move d into the past. Without the second
+// part a validator that defaulted to the store time would stay on the real clock while
+// the rest of the entry lives on the aged one.
+func (p *Proxy) VerifAge(d time.Duration) {
+	h := p.VerifCache()
+	h.VerifAge(d)
+	for _, k := range h.VerifKeys() {
+		p.cache.UpdateMetadata(cache.CacheKey{Hex: k}, func(m *cache.EntryMetadata[cachedRequestInfo]) {
+			m.Object.LastModified = m.Object.LastModified.Add(-d)
+		})
+	}
+}
